@@ -5,4 +5,4 @@ Extraction "../ml/c08.ml" drv_base networks find_network match_templates
   address_for_p2pkh address_for_p2sh address_for_p2pkh_wit address_for_p2sh_wit address_for_p2tr
   address_for_p2s address_for_p2s_wit address_for_script address_for_script_info
   parse_p2pkh parse_p2sh parse_p2pkh_segwit parse_p2sh_segwit parse_p2tr parse_address
-  contract_for_address key_address bip49_address bip84_address kind_info ascii_lower.
+  contract_for_address parse_address_seq pcache_empty key_address bip49_address bip84_address kind_info ascii_lower.
